@@ -42,7 +42,8 @@ MINIMUMS = {
     'quick': {'evaluations': 2500, 'kind:deepcopy': 300, 'kind:pickle': 300, 'kind:copy': 300,
               'kind:copy_with': 300, 'kind:cast': 300, 'kind:deepcopy_with': 300,
               'tagged_positional_cases': 100, 'edits_changing_tags': 300, 'edits_applied': 4000,
-              'tagged_unset_argument_cases': 100},
+              'tagged_unset_argument_cases': 100,
+              'cases_with_annotation_tags_removed_or_replaced': 40},
     'thorough': {'evaluations': 1000},
 }
 
@@ -231,6 +232,23 @@ def run_case(rng, acc):
       uncopyable = False
   sketch = gen.sketch(root)
   a = gen.to_fiddle(root)
+  # tags that come from the callable's annotations and that the user removed / replaced again:
+  # a copy carries the tags of the ORIGINAL, not those of the annotations
+  if rng.random() < 0.5:
+    for bb in C.identity_objects(a, include_internals=False).get('buildable', {}).values():
+      if bb.__fn_or_cls__ in (kinds.tagged_fn, kinds.tagged_pos_fn, kinds.DCTagged) and rng.random() < 0.7:
+        keys = [k for k, v in bb.__argument_tags__.items() if v]
+        if keys:
+          k = rng.choice(keys)
+          try:
+            if rng.random() < 0.5:
+              fdl.clear_tags(bb, k)
+            else:
+              fdl.set_tags(bb, k, {vtags.TagC})
+            sketch += f'  [annotation tags of {k!r} edited]'
+            acc.obs('cases_with_annotation_tags_removed_or_replaced')
+          except Exception:  # pylint: disable=broad-except
+            pass
   nb = sum(isinstance(n, gen.B) for n in gen.walk(root))
   if any(isinstance(k, int) and v for k, v in a.__argument_tags__.items()):
     acc.obs('tagged_positional_cases')
